@@ -150,7 +150,9 @@ Definition v_step (s : vst) (t : tev) : vst * bool :=
   | TSample e d =>
       let err_ok := (if nil_required then opt_errc_eqb e None else true) &&
                     (* Err() is the error reported with Closed *)
-                    match ce with Some x => opt_errc_eqb e x | None => true end in
+                    match ce with Some x => opt_errc_eqb e x | None => true end &&
+                    (* ... and once non-nil it never changes (also not by a later SetErrorOnce) *)
+                    match la with Some (Some e0, _) => opt_errc_eqb e (Some e0) | _ => true end in
       let done_ok := if d then cn && (ca || dc) && negb oc && (rc || Nat.ltb 0 nd) else true in
       let end_ok :=
         if en then
